@@ -824,5 +824,5 @@ func (c *c18Gen) public(t, w c18Triple, gr c18Group) {
 }
 
 func init() {
-	register(&Prop{Name: "c18", Gen: c18Gen_, Exec: c18Exec, Judge: c18Judge})
+	register(&Prop{Name: "c18", Stateless: true, Gen: c18Gen_, Exec: c18Exec, Judge: c18Judge})
 }
